@@ -350,6 +350,24 @@ def rule_d(repo, res):
                 res.check(good, "C24.d", "main:output_dir:%s" % (const_str(parts[2]) if len(parts) == 3 else short(a.value, 30)), "%s:main" % m.rel, "each configuration's units of work must write under os.path.join(args.output, <the configuration's own name>, 'encoder'|'decoder') (found %s): names are unique per CSV, a transformed name need not be, and two configurations sharing a directory overwrite each other's files in an order that depends on the schedule" % short(a.value, 80), by="args.output / name / kind, name used unchanged")
                 n += 1
     res.check(sorted(dirs) == ["decoder", "encoder"], "C24.d", "main:two-output-dirs-per-configuration", "%s:main" % m.rel, "main must derive exactly an encoder and a decoder output directory inside the loop over the configurations (found %s)" % dirs, by="encoder, decoder")
+    # a unit of work creates the directories it writes into itself: every write site of an output_* function comes after
+    # a makedirs call of the same function (or its output_*_cases caller creates output_dir before calling it) -- never
+    # relying on another unit of work having created the directory first
+    callers = {"output_encoder_test_case": "output_encoder_test_cases", "output_decoder_test_case": "output_decoder_test_cases"}
+    for fname, caller in sorted(callers.items()):
+        f_ = m.funcs.get(fname)
+        c_ = m.funcs.get(caller)
+        if f_ is None or c_ is None:
+            raise AnalysisError("anchor vanished: cli.%s / %s" % (fname, caller))
+        mk_lines = [c.lineno for c in ast.walk(f_) if isinstance(c, ast.Call) and dotted(c.func) == "makedirs"]
+        caller_makes = any(isinstance(c, ast.Call) and dotted(c.func) == "makedirs" and c.args and dotted(c.args[0]) == "output_dir" for c in ast.walk(c_))
+        writes = []
+        for c in ast.walk(f_):
+            if isinstance(c, ast.Call) and ((dotted(c.func) == "open" and len(c.args) >= 2 and (const_str(c.args[1]) or "r")[0] in "wax") or dotted(c.func) == "file_format.write"):
+                writes.append(c)
+        early = [w for w in writes if not caller_makes and not any(l < w.lineno for l in mk_lines)]
+        res.check(bool(writes) and not early, "C24.d", "%s:directory-created-before-writing" % fname, "%s:%s" % (m.rel, fname), "%s writes a file (line %s) before it has created any directory itself, and %s does not create output_dir either: the write only succeeds if another unit of work of the same configuration happened to run first" % (fname, [w.lineno for w in early], caller), by="makedirs precedes every write%s" % (" (output_dir created by %s)" % caller if caller_makes else ""))
+        n += 1
     # the makedirs the units of work call is os.makedirs itself (atomic with respect to a concurrent creator), the
     # test-then-create fallback being reachable only where os.makedirs has no exist_ok (Python 2)
     pm = repo.mod("py2x_compat")
